@@ -287,6 +287,21 @@ class Folder:
             if not (0 <= idx < len(base)):
                 raise Trap("index %d out of bounds (len %d) at %s" % (idx, len(base), span_str(e["span"])))
             return base[idx]
+        if k == "If" and e["cond"].get("k") == "Let":
+            v = self.fold(e["cond"]["expr"])
+            ok, binds = self._pat_match(e["cond"]["pat"], v)
+            if ok:
+                shadow = {n: self.env[n] for n in binds if n in self.env}
+                self.env.update(binds)
+                try:
+                    return self.fold(e["then"])
+                finally:
+                    for n in binds:
+                        self.env.pop(n, None)
+                    self.env.update(shadow)
+            if "else" in e:
+                return self.fold(e["else"])
+            return None
         if k == "If":
             c = self.fold(e["cond"])
             if c:
